@@ -195,4 +195,57 @@ theorem rawAt_hash_independent {D' : Type} (hc : HC Nat) (hinj : ∀ a b, hc.H a
       rw [rawAt_succ, rawAt_succ, nodeStream_eq, nodeStream_eq, step.2.1,
         taskPart_transport _ _ _ _ hcfg _ _ _ _ step.1, sigArgs_transport _ _ _ _ _ _ hcfg _ _ step.2.2]
 
+/-- permutations of images transport along a pointwise implication. -/
+theorem perm_map_transport {γ δ : Type} (f g : Nat → γ) (f' g' : Nat → δ)
+    (hx : ∀ a b, f a = g b → f' a = g' b) :
+    ∀ (l1 l2 : List Nat), l1.map f ~ l2.map g → l1.map f' ~ l2.map g'
+  | [], l2, h => by
+    have : l2.map g = [] := by simpa using h.symm.eq_nil
+    have : l2 = [] := by simpa using this
+    subst this; exact Perm.refl _
+  | a :: l1, l2, h => by
+    have hm : f a ∈ l2.map g := h.subset (by simp)
+    obtain ⟨b, hb, hgb⟩ := mem_map.1 hm
+    have p : l2 ~ b :: l2.erase b := perm_cons_erase hb
+    have h2 : f a :: l1.map f ~ g b :: (l2.erase b).map g := by simpa using h.trans (p.map g)
+    rw [hgb] at h2
+    have ih := perm_map_transport f g f' g' hx l1 (l2.erase b) h2.cons_inv
+    have e : f' a = g' b := hx a b hgb.symm
+    have : (a :: l1).map f' ~ (b :: l2.erase b).map g' := by
+      simp only [map_cons, e]; exact ih.cons _
+    exact this.trans (p.map g').symm
+
+/-- **full identifier, every depth**: equal full identifiers under the ideal hash ⇒ equal full identifiers
+    under every hash structure whose order on digests is total, transitive and antisymmetric. -/
+theorem fullId_hash_independent {D' : Type} (hc : HC Nat) (hinj : ∀ a b, hc.H a = hc.H b → a = b)
+    (hemb : ∀ d, hc.emb d = [256 + d]) (hc' : HC D')
+    (total : ∀ a b, hc'.le a b = true ∨ hc'.le b a = true)
+    (trans : ∀ a b c, hc'.le a b = true → hc'.le b c = true → hc'.le a c = true)
+    (antisymm : ∀ a b, hc'.le a b = true → hc'.le b a = true → a = b)
+    (lib : List Nat → List Nat → STy) (g1 g2 : Graph)
+    (hg1 : LibTyped lib g1) (hg2 : LibTyped lib g2) (hz1 : g1.size + 1 < 2^64) (hz2 : g2.size + 1 < 2^64)
+    (n1 n2 : Nat) (h : fullId hc g1 n1 = fullId hc g2 n2) : fullId hc' g1 n1 = fullId hc' g2 n2 := by
+  obtain ⟨hraw, hpre, hinit⟩ := fullId_inj hc hinj hemb g1 g2 n1 n2 h
+  have tr : ∀ a b, rawId hc g1 a = rawId hc g2 b → rawId hc' g1 a = rawId hc' g2 b := fun a b hab =>
+    rawAt_hash_independent hc hinj hemb hc' lib (g1.size + 1) (g2.size + 1) g1 g2 [] [] a b hg1 hg2
+      (by simpa using hz1) (by simpa using hz2) hab
+  have e1 := tr n1 n2 hraw
+  have hp : (collectPreTasks g1 n1).map (rawId hc g1) ~ (collectPreTasks g2 n2).map (rawId hc g2) :=
+    (sortBy_perm hc.le _).symm.trans (by rw [hpre]; exact sortBy_perm hc.le _)
+  have e2 : sortBy hc'.le ((collectPreTasks g1 n1).map (rawId hc' g1))
+      = sortBy hc'.le ((collectPreTasks g2 n2).map (rawId hc' g2)) :=
+    sortBy_eq_of_perm hc'.le total trans (perm_map_transport _ _ _ _ tr _ _ hp)
+      (fun a b _ _ => antisymm a b)
+  have e3 : (g1.node n1).initTasks.map (rawId hc' g1) = (g2.node n2).initTasks.map (rawId hc' g2) :=
+    map_transport _ _ _ _ _ _ (fun a _ b hab => tr a b hab) hinit
+  have hF : ∀ (g : Graph) (n : Nat),
+      (if (g.node n).initTasks.isEmpty then [] else
+        12 :: ((g.node n).initTasks.map (fun i => hc'.emb (rawId hc' g i))).flatten)
+      = (if ((g.node n).initTasks.map (rawId hc' g)).isEmpty then [] else
+        12 :: (((g.node n).initTasks.map (rawId hc' g)).map hc'.emb).flatten) := by
+    intro g n
+    cases (g.node n).initTasks <;> simp [Function.comp_def]
+  simp only [fullId]
+  rw [hF, hF, e1, e2, e3]
+
 end XpmVerif.Ident
